@@ -129,3 +129,153 @@ class p_expression_arithmetic_operator:
 
     def post(self, p, out):
         return no_callbacks(self)
+
+
+def only_call(self, fn, args):
+    """ exactly one call-out, to fn, with the given positional arguments; no other callback """
+    cs = calls(fn)
+    total = len(calls(self.call_function)) + len(calls(self.call_variable)) + len(calls(self.call_cell_value)) + \
+        len(calls(self.call_range_value)) + len(calls(self.throw_error))
+    if total != 1 or len(cs) != 1 or len(cs[0]) != len(args):
+        return False
+    for i in range(0, len(args)):
+        if not same(cs[0][i], args[i]):
+            return False
+    return True
+
+
+@contract('hotxlfp.grammarparser.parser:FormulaParser.p_expression_function', props=['C05', 'C09', 'C10'])
+class p_expression_function:
+    args = dict(self=FP, p=PROD('expression', ('FUNCTION', STR), ('LPAREN', '('), ('RPAREN', ')')))
+
+    def post(self, p, out):
+        # one call of the callback with the function name and no argument list; its value is the value of the call
+        if not only_call(self, self.call_function, [p[1]]):
+            return False
+        if not out.ret:
+            return True
+        return same(p[0], call_result(self.call_function, 0))
+
+
+@contract('hotxlfp.grammarparser.parser:FormulaParser.p_expression_wargs', props=['C05', 'C09', 'C10'])
+class p_expression_wargs:
+    args = dict(self=FP)
+    cases = [dict(p=PROD('expression', ('FUNCTION', STR), ('LPAREN', '('), ('expseqcomma', SEQ(E)), ('RPAREN', ')'))),
+             dict(p=PROD('expression', ('FUNCTION', STR), ('LPAREN', '('), ('expseqsemicolon', SEQ(E)), ('RPAREN', ')'))),
+             dict(p=PROD('expression', ('FUNCTION', STR), ('LPAREN', '('), ('expseqbackslash', SEQ(E)), ('RPAREN', ')')))]
+
+    def post(self, p, out):
+        # the slot list built by the sequence rules is passed on unchanged (one argument per slot, in order)
+        if not only_call(self, self.call_function, [p[1], p[3]]):
+            return False
+        if not out.ret:
+            return True
+        return same(p[0], call_result(self.call_function, 0))
+
+
+@contract('hotxlfp.grammarparser.parser:FormulaParser.p_variable', props=['C09'])
+class p_variable:
+    args = dict(self=FP, p=PROD('variable_sequence', ('VARIABLE', STR)))
+
+    def post(self, p, out):
+        return out.ret and is_list(p[0]) and len(p[0]) == 1 and same(p[0][0], p[1]) and no_callbacks(self)
+
+
+@contract('hotxlfp.grammarparser.parser:FormulaParser.p_expression_varseq', props=['C09', 'C10'])
+class p_expression_varseq:
+    args = dict(self=FP, p=PROD('expression', ('variable_sequence', LISTN(STR))))
+
+    def post(self, p, out):
+        if not only_call(self, self.call_variable, [p[1][0]]):
+            return False
+        if not out.ret:
+            return True
+        return same(p[0], call_result(self.call_variable, 0))
+
+
+def cell_cases():
+    kinds = ['ABSOLUTE_CELL', 'RELATIVE_CELL', 'MIXED_CELL']
+    out = [dict(p=PROD('cell', (k, STR))) for k in kinds]
+    for a in kinds:
+        for b in kinds:
+            out.append(dict(p=PROD('cell', (a, STR), ('COLON', ':'), (b, STR))))
+    return out
+
+
+@contract('hotxlfp.grammarparser.parser:FormulaParser.p_cell', props=['C10'])
+class p_cell:
+    args = dict(self=FP)
+    cases = cell_cases()
+
+    def post(self, p, out):
+        if len(p) == 2:
+            if not only_call(self, self.call_cell_value, [p[1]]):
+                return False
+            if not out.ret:
+                return True
+            return same(p[0], call_result(self.call_cell_value, 0))
+        if not only_call(self, self.call_range_value, [p[1], p[3]]):
+            return False
+        if not out.ret:
+            return True
+        return same(p[0], call_result(self.call_range_value, 0))
+
+
+@contract('hotxlfp.grammarparser.parser:FormulaParser.p_xlerror', props=['C08'])
+class p_xlerror:
+    args = dict(self=FP, p=PROD('expression', ('XLERROR', STR)))
+
+    def post(self, p, out):
+        # the literal is handed to throw_error (which raises the canonical error, see Parser._throw_error)
+        return only_call(self, self.throw_error, [p[1]])
+
+
+@contract('hotxlfp.grammarparser.parser:FormulaParser.p_error', props=['C01'])
+class p_error:
+    args = dict(self=FP, p=HOSTOBJ | NONE_T)
+
+    def post(self, p, out):
+        # a syntax error is routed to throw_error(#ERROR!) before anything else; throw_error raises, so PLY's own recovery
+        # is never entered
+        cs = calls(self.throw_error)
+        return len(cs) >= 1 and len(cs[0]) == 1 and same(cs[0][0], ERROR)
+
+
+@contract('hotxlfp.grammarparser.parser:FormulaParser.p_expression_number', props=['C05'])
+class p_expression_number:
+    # NUMBER tokens are non-empty digit strings (lexer contract, regex obligation of C05)
+    args = dict(self=FP)
+    cases = [dict(p=PROD('expression', ('NUMBER', STR))),
+             dict(p=PROD('expression', ('DECIMAL', '.'), ('NUMBER', STR))),
+             dict(p=PROD('expression', ('NUMBER', STR), ('DECIMAL', '.'), ('NUMBER', STR))),
+             dict(p=PROD('expression', ('NUMBER', STR), ('CARET', '^'), ('NUMBER', STR))),
+             dict(p=PROD('expression', ('NUMBER', STR), ('PERCENT', '%')))]
+    result_is_p0 = True
+    float_tol = 0          # a literal evaluates to EXACTLY the number it spells
+
+    def pre(self, p):
+        if len(p) == 2:
+            return is_digits(p[1])
+        if len(p) == 3 and p[1] == '.':
+            return is_digits(p[2]) and text_is_float('0.' + p[2]) and not text_is_int('0.' + p[2])
+        if len(p) == 3:
+            return is_digits(p[1])
+        if p[2] == '.':
+            return is_digits(p[1]) and is_digits(p[3]) and text_is_float(p[1] + '.' + p[3]) and not text_is_int(p[1] + '.' + p[3])
+        return is_digits(p[1]) and is_digits(p[3])
+
+    def spec(self, p):
+        # the number the literal spells: digits -> that integer; digits.digits / .digits -> the decimal read by float();
+        # integer^integer -> the exact integer power; integer% -> the correctly rounded quotient by 100
+        if len(p) == 2:
+            return int_of_text(p[1])
+        if len(p) == 3 and p[1] == '.':
+            return float_of_text('0.' + p[2])
+        if len(p) == 3:
+            return int_of_text(p[1]) / 100
+        if p[2] == '.':
+            return float_of_text(p[1] + '.' + p[3])
+        return int_of_text(p[1]) ** int_of_text(p[3])
+
+    def post(self, p, out):
+        return no_callbacks(self)
